@@ -238,6 +238,8 @@ TSpec == TInit /\ [][TNext]_tvars
 Linearizable == flags \cap {"lin", "lww", "final", "protocol"} = {}
 \* C11: the sweeper / lazy expiry removes only the expired current generation
 SweepSafe == "expire" \notin flags
+\* C11/C14: at quiescence no live key is hidden from (or lingers in) the ordered index
+NotHidden == "index" \notin flags
 \* C13: usage never above the limit at any sampled instant, exact at quiescence
 MemBound == flags \cap {"limit", "mem", "len"} = {}
 \* C14: scans
